@@ -43,6 +43,18 @@ static Severity verif_read_content(SDAI_Select *, istream &in, InstMgrBase *inst
     g_content_reads++; g_content_insts = insts; g_content_utype = utype; g_content_add = add; g_content_sch = sch; in.get(); return g_content_sev; }
 static const TypeDescriptor *verif_AssignEntity(SDAI_Select *, SDAI_Application_instance *) { if (g_assign_ok) return g_member; return (TypeDescriptor *)0; }
 SDAI_Application_instance *ReadEntityRef(istream &in, ErrorDescriptor *, const char *, InstMgrBase *insts, int add) { g_ref_calls++; g_ref_insts = insts; g_ref_add = add; in.get(); in.get(); return g_ref_result; }
+/* sprintf with one string argument (C++ overload next to the variadic libc declaration, which cbmc's C++ front end cannot model): the
+ * text written is at most format + argument long and must fit the destination.  An argument that IS the keyword token of the input stands for
+ * a token of any length (ghost g_kw_vlen: the model string holds only a prefix of a long token) */
+static unsigned long g_kw_vlen = 2; static const char *g_kw_text = "KW";
+int sprintf(char *b, const char *f, const char *a)
+{
+    /* upper bounds without loops: a string is shorter than the object that holds it */
+    unsigned long flen = __CPROVER_OBJECT_SIZE(f) - __CPROVER_POINTER_OFFSET(f) - 1, alen = __CPROVER_OBJECT_SIZE(a) - __CPROVER_POINTER_OFFSET(a) - 1;
+    unsigned long need = flen + ((a[0] == g_kw_text[0] && a[1] == g_kw_text[1] && a[2] == 0) ? g_kw_vlen : alen);
+    __CPROVER_assert(need < __CPROVER_OBJECT_SIZE(b) - __CPROVER_POINTER_OFFSET(b), "C05 a message formatted with sprintf fits its buffer whatever the length of the input token it quotes");
+    b[0] = 0; return 0;
+}
 #include "select_read_extract.inc"
 #include "src/clutils/errordesc.cc"
 #undef private
@@ -93,7 +105,8 @@ extern "C" void h_SelectNode_STEPread()
  * raises an error; C14: references and nested values are read with the caller's instance set and id offset */
 extern "C" void h_Select_STEPread()
 {
-    IN(int, in_shape); IN(int, in_inlist); IN(int, in_assign); IN(int, in_add); IN(int, in_found); IN(int, in_csev);
+    IN(int, in_shape); IN(int, in_inlist); IN(int, in_assign); IN(int, in_add); IN(int, in_found); IN(int, in_csev); IN(unsigned long, in_kwlen);
+    __CPROVER_assume(in_kwlen >= 2 && in_kwlen <= 100000); g_kw_vlen = in_kwlen;      /* the keyword of the input may be this long */
     __CPROVER_assume(in_shape >= 0 && in_shape <= 3 && in_add >= 0);
     __CPROVER_assume(in_csev == SEVERITY_NULL || in_csev == SEVERITY_USERMSG || in_csev == SEVERITY_INCOMPLETE || in_csev == SEVERITY_WARNING || in_csev == SEVERITY_INPUT_ERROR);
     const char *txt[4] = { "#5,", "KW(v),", "$,", "," };
